@@ -194,6 +194,48 @@ impl Case {
     }
 }
 
+impl Case {
+    /// the sub-space a case belongs to
+    fn sub(&self) -> &'static str {
+        if self.upem != 1000 {
+            "upem"
+        } else if self.kind.varying().iter().any(|v| *v) {
+            "xform"
+        } else if !self.layer_hosts.is_empty() {
+            "hosted"
+        } else {
+            "base"
+        }
+    }
+    /// Can the Glyphs format say this design (axis extremes at full masters, no skewed component
+    /// 2x2), and is there a brace layer that may leave out trailing coordinates? Computed from the
+    /// case alone (for `--count`); the run itself asks dgen (`routes_of`) and insists on agreement.
+    fn glyphs_routes(&self) -> (bool, bool) {
+        let all: Vec<&QLoc> = self.locs.iter().chain(self.layers.iter()).collect();
+        let extremes = (0..self.n).all(|a| {
+            (!all.iter().any(|l| l[a] > 0) || self.locs.iter().any(|l| l[a] == 4)) && (!all.iter().any(|l| l[a] < 0) || self.locs.iter().any(|l| l[a] == -4))
+        });
+        let v = self.kind.varying();
+        let skewed = v[1] || v[2] || (v.iter().any(|b| *b) && self.xbase != 0);
+        let ok = extremes && !skewed;
+        let partial = ok
+            && self.n >= 2
+            && self.layers.iter().enumerate().any(|(i, l)| l[self.n - 1] == self.locs[self.layer_hosts.get(i).copied().unwrap_or(0)][self.n - 1]);
+        (ok, partial)
+    }
+    /// (glyph, master) comparisons of one font of the case: the cost proxy of `--count`
+    fn comparisons(&self) -> u64 {
+        let nm = (self.locs.len() + self.layers.len()) as u64;
+        let sparse = (1u64 << (nm - 1)) * (nm + 1) / 2;
+        match self.kind {
+            Kind::Line | Kind::Quadratic | Kind::Cubic => sparse,
+            Kind::Composite => sparse + 4 * nm + 2,
+            Kind::Nested => sparse + 4 * nm,
+            _ => sparse + 3 * nm,
+        }
+    }
+}
+
 fn grid(n: usize) -> Vec<QLoc> {
     // {-1,0,1}^n minus the origin, plus (0.5,0,...)
     let mut pts = vec![];
@@ -372,6 +414,9 @@ fn spaces(tier: Tier) -> (Vec<Case>, Vec<Value>) {
             };
             for kind in Kind::ALL {
                 for fam in Fam::ALL {
+                    if fam == Fam::Ripple && n == 3 && locs.len() > 4 {
+                        continue; // the largest 3-axis sets: the four older families
+                    }
                     for (li, layer) in layers.iter().enumerate() {
                         if layer.len() == 2 && locs.len() > two_layer_max {
                             continue; // the two-layer option stays with the small sets
@@ -393,11 +438,12 @@ fn spaces(tier: Tier) -> (Vec<Case>, Vec<Value>) {
                     }
                 }
             }
-            // the largest 3-axis sets stay with the 1000-upem / identity-2x2 / default-host space
-            let small = n < 3 || locs.len() <= 4;
+            // the largest sets of thorough stay with the 1000-upem / identity-2x2 / default-host space
+            let small = (n <= 2 && locs.len() <= 5) || locs.len() <= 3;
+            let small_upem = small || (n == 3 && locs.len() <= 4);
             // units per em: the simple kinds with the families in which IUP infers deltas
             // (and the all-move family: every delta explicit), no layer master / the first one
-            if small {
+            if small_upem {
                 for upem in UPEMS {
                     for kind in [Kind::Line, Kind::Quadratic, Kind::Cubic] {
                         for fam in [Fam::SomeStatic, Fam::Scale, Fam::Ripple, Fam::AllMove] {
@@ -1126,7 +1172,7 @@ stats! {
         iup_omitted_points_upem_1000, iup_omitted_points_upem_2048, iup_omitted_points_upem_4096,
         comparisons_two_or_more_tuples_active_with_iup_upem_2048, comparisons_two_or_more_tuples_active_with_iup_upem_4096,
         // source routes
-        fonts_ufo_route, fonts_glyphs_route, fonts_glyphs_route_partial_coordinates, designs_not_representable_in_glyphs,
+        fonts_ufo_route, fonts_glyphs_route, fonts_glyphs_route_partial_coordinates, designs_not_representable_in_glyphs, designs_glyphs_route_not_taken_in_this_tier,
         brace_layers_written, brace_layers_with_partial_coordinates, brace_layers_with_partial_coordinates_host_off_default,
         comparisons_at_brace_layer_with_partial_coordinates, comparisons_at_brace_layer_with_partial_coordinates_host_off_default,
         comparisons_at_layer_master_of_non_default_host,
@@ -1186,6 +1232,19 @@ fn partial_layers(d: &Design) -> Vec<usize> {
     (0..d.masters.len())
         .filter(|m| matches!(d.masters[*m].kind, dgen::MasterKind::LayerOf(_)) && d.brace_coordinates(*m, &o).len() < d.axes.len())
         .collect()
+}
+
+/// Which cases also go through the Glyphs routes: 1 and 2 axes with up to 5 full masters (all of
+/// quick), 3 axes with up to 3. (The larger master sets of thorough stay with the UFO route: what
+/// the Glyphs front end adds is location handling, which does not depend on the size of the set.)
+fn glyphs_routes_enabled(_tier: Tier, c: &Case) -> bool {
+    (c.n <= 2 && c.locs.len() <= 5) || c.locs.len() <= 3
+}
+
+/// number of fonts a case is compiled into under the tier's route policy
+fn routes_planned(tier: Tier, c: &Case) -> u64 {
+    let (g, p) = c.glyphs_routes();
+    if glyphs_routes_enabled(tier, c) { 1 + g as u64 + p as u64 } else { 1 }
 }
 
 /// the routes a design is compiled through (the UFO route always)
@@ -1607,7 +1666,14 @@ fn judge_font(d: &Design, opts: &fcx::Opts, route: Route, bytes: &[u8], xcheck: 
                         InstKind::Composite { .. } => "a composite".into(),
                         InstKind::Empty => "an empty glyph".into(),
                     };
-                    findings.push(Finding { class: "structure", what: format!("glyph {} master {m}: the font has {n}, the source {} contours", g.name, layer.contours.len()), detail: detail(m, Value::Null) });
+                    let why = match varies {
+                        Some(v) => format!(
+                            " (the source's components have a 2x2 that differs between the glyph's masters in {}, so only the per-master resolution into contours reproduces every master)",
+                            ["xScale", "xyScale", "yxScale", "yScale"].iter().zip(v).filter(|(_, on)| *on).map(|(n, _)| *n).collect::<Vec<_>>().join("+")
+                        ),
+                        None => String::new(),
+                    };
+                    findings.push(Finding { class: "structure", what: format!("glyph {} master {m}: the font has {n}, the source {} contours{why}", g.name, layer.contours.len()), detail: detail(m, Value::Null) });
                     bad = true;
                     break;
                 }
@@ -1928,7 +1994,28 @@ fn main() {
         replay(p);
     }
     let mut rep = Reporter::new("C03", "exploration", &args);
-    let (cases, notes) = spaces(args.tier);
+    let (mut cases, notes) = spaces(args.tier);
+    // `--stride N`: every Nth design only (sizing aid; the run is then not exhaustive)
+    let stride: usize = args.rest.iter().position(|a| a == "--stride").and_then(|i| args.rest.get(i + 1)).and_then(|v| v.parse().ok()).unwrap_or(1).max(1);
+    // `--only base|upem|xform|hosted`: one sub-space only (sizing aid; not exhaustive either)
+    let only: Option<String> = args.rest.iter().position(|a| a == "--only").and_then(|i| args.rest.get(i + 1)).cloned();
+    if let Some(o) = &only {
+        cases.retain(|c| {
+            let sub = if c.upem != 1000 {
+                "upem"
+            } else if c.kind.varying().iter().any(|v| *v) {
+                "xform"
+            } else if !c.layer_hosts.is_empty() {
+                "hosted"
+            } else {
+                "base"
+            };
+            sub == o
+        });
+    }
+    if stride > 1 {
+        cases = cases.into_iter().step_by(stride).collect();
+    }
     if args.rest.iter().any(|a| a == "--selftest") {
         selftest();
     }
@@ -1959,6 +2046,23 @@ fn main() {
     }
     if args.rest.iter().any(|a| a == "--count") {
         println!("{} designs: {}", cases.len(), serde_json::to_string(&notes).unwrap());
+        // per (axes, sub-space): designs, fonts (all routes of the tier), (glyph, master) comparisons
+        let mut t: BTreeMap<(usize, &'static str, usize), [u64; 4]> = BTreeMap::new();
+        for c in &cases {
+            let e = t.entry((c.n, c.sub(), c.locs.len())).or_default();
+            let routes = routes_planned(args.tier, c);
+            e[0] += 1;
+            e[1] += routes;
+            e[2] += c.comparisons();
+            e[3] += c.comparisons() * routes;
+        }
+        let (mut f, mut k) = (0, 0);
+        for ((n, sub, full), e) in &t {
+            println!("  axes {n} {sub:7} full masters {full} designs {:7} fonts {:7} comparisons ufo {:10} all routes {:10}", e[0], e[1], e[2], e[3]);
+            f += e[1];
+            k += e[3];
+        }
+        println!("  total fonts {f} comparisons {k}");
         return;
     }
     let chunk = 8usize;
@@ -1966,6 +2070,7 @@ fn main() {
     let started = std::time::Instant::now();
     // a safety net for an overloaded machine; a normal run finishes far below it
     let cap_s: u64 = (args.tier.pick(150.0, 1100.0) * vcore::budget_scale()) as u64;
+    let tier = args.tier;
     let results = vcore::par_for(nchunks, vcore::ncores(), |ci| {
         let mut st = Stats::default();
         let mut viol: Vec<(String, String, usize, Route, Value)> = vec![];
@@ -1979,9 +2084,15 @@ fn main() {
             }
             let (d, opts) = build(case);
             let before = st.clone();
-            let routes = routes_of(&d);
+            let mut routes = routes_of(&d);
+            if routes.len() as u64 != 1 + case.glyphs_routes().0 as u64 + case.glyphs_routes().1 as u64 {
+                vcore::machinery_error(&format!("[{}]: the route prediction of the case and dgen disagree", case.label()));
+            }
             if routes.len() == 1 {
                 st.designs_not_representable_in_glyphs += 1;
+            } else if !glyphs_routes_enabled(tier, case) {
+                st.designs_glyphs_route_not_taken_in_this_tier += 1;
+                routes.truncate(1);
             }
             // finding classes of the UFO route: a Glyphs-route finding of the same class is the same
             // failing feature and keeps the key; a finding of the Glyphs route alone names the route
@@ -2059,13 +2170,25 @@ fn main() {
     rep.set("distinct_nontrivial", total.comparisons_active_variation);
     rep.set(
         "rule",
-        "distinct (design, glyph, master) comparisons at a non-default master location at which the glyph has a drawing of its own and at least one gvar tuple of the glyph is active (scalar != 0); every design of the space is distinct by construction",
+        "distinct (design, source route, glyph, master) comparisons at a non-default master location at which the glyph has a drawing of its own and at least one gvar tuple of the glyph is active (scalar != 0); every design of the space is distinct by construction, and every route of a design is a different source text compiled into a font of its own",
     );
     rep.set("counts", serde_json::to_value(&total).unwrap());
     rep.set("spaces", notes);
+    rep.set(
+        "routes",
+        json!({
+            "fonts_from_designspace_ufo": total.fonts_ufo_route,
+            "fonts_from_glyphs3": total.fonts_glyphs_route - total.fonts_glyphs_route_partial_coordinates,
+            "fonts_from_glyphs3_with_partial_brace_coordinates": total.fonts_glyphs_route_partial_coordinates,
+            "policy": "Glyphs routes for 1-2 axes with <= 5 full masters and 3 axes with <= 3, where dgen says the design is representable",
+        }),
+    );
     rep.set("samples", samples);
     rep.set("designs_not_compiled", json!({"count": total.rejected + total.panicked, "classes": reject_classes, "examples": rejected}));
-    rep.set("exhaustive", total.designs_skipped_by_time_cap == 0);
+    rep.set("exhaustive", total.designs_skipped_by_time_cap == 0 && stride == 1 && only.is_none());
+    if stride > 1 {
+        rep.set("stride", stride);
+    }
     if total.designs_skipped_by_time_cap > 0 {
         eprintln!("[C03] time cap of {cap_s}s hit: {} designs (the largest master sets) were not run", total.designs_skipped_by_time_cap);
     }
@@ -2074,7 +2197,7 @@ fn main() {
     rep.assume("units per em 1000 everywhere, 2048 and 4096 for the simple kinds x {some-static, scale, all-move} x {no layer master, the first one} (drawings scaled by upem/1000, to half units); the per-coordinate bound does not depend on the em");
     rep.assume("Glyphs 3 route: every design whose axis extremes are at full masters and whose component 2x2s are axis-aligned is also compiled from a .glyphs twin (dgen writer: explicit Axis Mappings, Variable Font Origin, brace layers with associatedMasterId + attr.coordinates) and judged identically; brace layers with only leading coordinates are written only where the omitted trailing axes equal the associated master's (the rule documented at glyphs2fontir process_layer); Glyphs 2, .glyphspackage and bracket layers are not enumerated");
     rep.assume("per-coordinate bound against ot_round(source): 0 at the default master; elsewhere 0.5 (one delta rounding) + 0.5*|scalar| for every active gvar tuple that omits the point (IUP tolerance), which is <= the statement's 0.5 + 0.5*sum(active scalars); component offsets 0.5; measured tightness in counts.max_err_over_bound");
-    rep.assume("a run on an overloaded machine stops starting new designs after 50 s (quick) / 1100 s (thorough), largest master sets last, and then reports exhaustive=false with counts.designs_skipped_by_time_cap");
+    rep.assume("a run on an overloaded machine stops starting new designs after 150 s (quick) / 1100 s (thorough) (times VERIF_BUDGET_SCALE), largest master sets last, and then reports exhaustive=false with counts.designs_skipped_by_time_cap");
     rep.assume("the start point of a contour is free (contours are compared as cyclic sequences; one rotation must serve all masters); an on-curve point may be left implied only where the instantiated neighbours' midpoint reproduces it within the bound + 0.5");
     rep.assume("cubic sources are compared as curves (sampled symmetric Hausdorff distance, 16 samples per quadratic / 32 per cubic segment), not point for point: the joint cu2qu conversion fixes the structure only");
     rep.assume("a design the compiler refuses is counted (designs_not_compiled), not judged; at masters where a sparse glyph has no drawing nothing is asserted");
